@@ -91,7 +91,7 @@ def run(pid, tier, seed):
                 ok = pid == "C14"
                 key = "trace:optional:%s" % ev.get("what")
             elif kind in ("Crash", "Sanitizer"):
-                ok = pid == "C14"
+                ok = pid in ("C14", "C15")        # (what comes after the recorder died is not judged by anybody: it counts for both)
                 key = "trace:%s" % kind
             else:
                 first = json.loads(prefix[0]) if prefix else {}
